@@ -64,6 +64,13 @@ class ReturnSignal(Exception):
         self.val = val
 
 
+class LetElseEarly(Exception):
+    """a let-else whose else block leaves with a *successful* value: handled as a conditional continuation by ev_Block"""
+
+    def __init__(self, c_leave, stay):
+        self.c_leave, self.stay = c_leave, stay
+
+
 class BreakSignal(Exception):
     pass
 
@@ -647,7 +654,23 @@ class Interp:
                     continue
                 v = self.ev_raw(s["init"], env)
                 if s.get("els"):
-                    v = self.let_else(s, self.deref(v), env)
+                    try:
+                        v = self.let_else(s, self.deref(v), env)
+                    except LetElseEarly as le_:
+                        if not (self.body_stack and self.body_stack[-1] is e):
+                            raise Unanalysable("let-else whose else block returns a non-error value (not at function-body level)", FX.short(s.get("sp") or s["init"].get("sp")))
+                        # `let PAT = v else { return <success> };` at function-body level: if the value does not match, the
+                        # else block is the whole rest of the function; otherwise the rest of the body runs with PAT bound to
+                        # the matching alternative -- a conditional continuation like `if c { return X }`
+                        inner_let = dict(s)
+                        inner_let["init"] = {"k": "_Val", "v": le_.stay, "sp": s["init"].get("sp"), "ty": s["init"].get("ty")}
+                        rest = {"k": "Block", "stmts": [inner_let] + e["stmts"][idx + 1:], "expr": e.get("expr"), "sp": e.get("sp"), "ty": e.get("ty")}
+                        fake = {"k": "If", "c": {"k": "_Val", "v": BoolV(le_.c_leave)}, "t": s["els"], "f": rest, "_cont": True, "sp": s.get("sp") or e.get("sp"), "spx": s.get("spx"), "ty": e.get("ty")}
+                        self.body_stack.append(rest)
+                        try:
+                            return self.ev_If(fake, env)
+                        finally:
+                            self.body_stack.pop()
                 if s["pat"]["k"] == "Wild":
                     self.refuse_handled_failure(v if not isinstance(v, Ref) else None, "discarded (`let _ =`)", FX.short(s["init"].get("sp")))
                 # bind by value unless the initialiser is an explicit mutable borrow
@@ -656,6 +679,17 @@ class Interp:
                 self.bind(s["pat"], v, env)
             elif sk in ("Expr", "Semi"):
                 x = FX.strip(s["e"])
+                if x["k"] == "If" and x.get("f") is None and x["c"]["k"] != "LetExpr" and self.is_bare_jump(x["t"], "Continue") and getattr(self, "loop_body_ids", None) and id(e) in self.loop_body_ids[-1]:
+                    # `if c { continue; } rest` at the top level of a loop body  ==  `if !c { rest }`
+                    c_ = self.decide(self.as_cond(self.ev(x["c"], env)))
+                    if isinstance(c_, bool):
+                        if c_:
+                            raise ContinueSignal()
+                        continue
+                    rest = {"k": "Block", "stmts": e["stmts"][idx + 1:], "expr": e.get("expr"), "sp": e.get("sp"), "ty": "()"}
+                    fake = {"k": "If", "c": {"k": "_Val", "v": BoolV(c_.negate())}, "t": rest, "f": None, "sp": x.get("sp"), "spx": x.get("spx"), "ty": "()"}
+                    self.ev_If(fake, env)
+                    return UNIT
                 if self.body_stack and self.body_stack[-1] is e and x["k"] == "If" and x.get("f") is None and x["c"]["k"] != "LetExpr" and self.block_always_returns(x["t"]):
                     # `if c { effects; return X }` at function-body level: the rest of the body is the else branch
                     snap = self.snapshot(env)
@@ -714,7 +748,7 @@ class Interp:
                 return all_leave(x.a) and all_leave(x.b)
             raise Unanalysable(f"let-else on {x!r}", where)
 
-        def guard_out(c_leave, truth_of_cond):
+        def guard_out(c_leave, truth_of_cond, stay=None):
             old = self.sub_trace()
             self.assuming(c_leave if not getattr(c_leave, "neg", False) else c_leave.negate(), truth_of_cond)
             try:
@@ -726,6 +760,8 @@ class Interp:
             if any(it[0] != "guard" for it in sub_.items):
                 raise Unanalysable("effects inside the else block of a let-else", where)
             if not self.is_abort_value(self.deref(rv)):
+                if stay is not None:
+                    raise LetElseEarly(c_leave, stay)
                 raise Unanalysable("let-else whose else block returns a non-error value", where)
             self.trace.add("guard", c_leave, rv, where, self.fn_stack[-1] if self.fn_stack else "")
             self.learn(c_leave)
@@ -738,10 +774,10 @@ class Interp:
             if la and lb:
                 raise ReturnSignal(leave())
             if la:
-                guard_out(x.cond, True)
+                guard_out(x.cond, True, stay=x.b)
                 return resolve(x.b)
             if lb:
-                guard_out(x.cond.negate(), False)
+                guard_out(x.cond.negate(), False, stay=x.a)
                 return resolve(x.a)
             ra, rb = resolve(x.a), resolve(x.b)
             return ra if val_eq(ra, rb) else Ite(x.cond, ra, rb)
@@ -881,12 +917,28 @@ class Interp:
     def run_body(self, body, env):
         """evaluate a loop body for one (generic) iteration"""
         self.loop_base.append(len(self.assumed))
+        if not hasattr(self, "loop_body_ids"):
+            self.loop_body_ids = []
+        self.loop_body_ids.append({id(body), id(FX.strip(body)) if isinstance(body, dict) and "k" in body else id(body)})
         try:
             self.ev_raw(body, env)
         except ContinueSignal:
             pass
         finally:
             self.loop_base.pop()
+            self.loop_body_ids.pop()
+
+    @staticmethod
+    def is_bare_jump(b, kind):
+        """the block consists of exactly one `continue` / `break` (no other statement)"""
+        if b is None:
+            return False
+        if b["k"] == kind:
+            return True
+        if b["k"] != "Block":
+            return False
+        items = [s_["e"] for s_ in b["stmts"] if s_["k"] in ("Semi", "Expr")] + ([b["expr"]] if b.get("expr") is not None else [])
+        return len(items) == 1 and len(b["stmts"]) <= 1 and FX.strip(items[0])["k"] == kind
 
     def ev_Assign(self, e, env):
         v = self.ev(e["r"], env)
@@ -1096,6 +1148,17 @@ class Interp:
 
     def decide(self, c):
         """a comparison that the ordering oracle settles from guard facts / index bounds is a constant"""
+        if isinstance(c, Cond) and c.op == "iszero" and isinstance(getattr(c, "subject", None), Sc):
+            # a product of powers of transcript challenges is zero only if a challenge is (negligible; the same assumption
+            # the `filter(|x| !x.is_zero())` reading over challenge inverses makes) -- recorded among the run's assumptions
+            try:
+                ex = sp.expand(c.subject.e)
+                atoms = [x for x in (ex.atoms(sp.Function) | ex.free_symbols) if not str(x).startswith(("_j", "j#", "_k"))]
+                if ex != 0 and len(sp.Add.make_args(ex)) == 1 and atoms and all(str(getattr(x, "func", x)).startswith("ch[") for x in atoms):
+                    self.asserts.append(("challenge-product-assumed-nonzero", str(ex)))
+                    return bool(c.neg)
+            except Exception:
+                pass
         if not isinstance(c, Cond) or c.a is None or c.b is None:
             return c
         try:
@@ -1128,6 +1191,16 @@ class Interp:
                 last = s["e"]
         return last is not None and (last["k"] == "Ret" or last.get("ty") == "!")
 
+    def block_jumps(self, b):
+        """the diverging block ends in `continue` / `break` rather than `return` / panic: a loop jump under this
+        condition, which must not be mistaken for a function exit"""
+        last = b
+        if b["k"] == "Block":
+            last = b.get("expr")
+            if last is None and b["stmts"] and b["stmts"][-1]["k"] in ("Semi", "Expr"):
+                last = b["stmts"][-1]["e"]
+        return last is not None and FX.strip(last)["k"] in ("Continue", "Break")
+
     def ev_If(self, e, env):
         if e.get("expn", "").startswith(("Bang:assert", "Bang:debug_assert")):
             self.trace.add("assert", e.get("expn"), FX.short(e.get("sp")), self.fn_stack[-1] if self.fn_stack else "")
@@ -1148,7 +1221,7 @@ class Interp:
                 return self.ev_raw(e["t"], env)
             return self.ev_raw(e["f"], env) if e.get("f") else UNIT
         # guard: `if c { ...; return X }` without else
-        if e.get("f") is None and self.block_always_returns(e["t"]):
+        if e.get("f") is None and self.block_always_returns(e["t"]) and not self.block_jumps(e["t"]):
             if self.parity_infeasible(c):
                 # e.g. `if n == 1 { return .. }` analysed at n = 2h: the exit cannot be taken for any integer h; the
                 # analysis instance does not cover it (the length-1 instance is analysed separately, see ipp.analyse_create_n1)
@@ -1213,7 +1286,7 @@ class Interp:
             if ret_t is not None and ret_f is not None:
                 if tt.items or tf.items:
                     self.trace.add("alt", c, tt.items, tf.items, FX.short(e.get("sp")))
-                raise ReturnSignal(Ite(c, ret_t, ret_f))
+                raise ReturnSignal(self.join_ret(c, ret_t, ret_f))
             raise Unanalysable("one branch of an if returns, the other continues (with else)", FX.short(e.get("sp")))
         if tt.items or tf.items:
             self.trace.add("alt", c, tt.items, tf.items, FX.short(e.get("sp")))
@@ -1230,6 +1303,18 @@ class Interp:
             # `if c { S { .. } } else { S { .. } }`: the same struct with conditional fields (a private struct replacing a tuple)
             return self.merge_val(c, vt, vf, None)
         return Ite(c, vt, vf)
+
+    def join_ret(self, c, a, b):
+        """value of a function that returns a on one side of c and b on the other: `Ok(x)` / `Ok(y)` (and `Some`) join
+        inside the variant, so that `return Ok(self)` on a fast path and `Ok(self)` at the end give one `Ok(merged self)`"""
+        da, db = self.deref(a), self.deref(b)
+        if isinstance(da, Enum) and isinstance(db, Enum) and da.path == db.path and da.variant == db.variant and len(da.payload) == len(db.payload) == 1 and not getattr(da, "fallible", None) and not getattr(db, "fallible", None):
+            pa, pb = self.deref(da.payload[0]), self.deref(db.payload[0])
+            if pa is pb or val_eq(pa, pb):
+                return da
+            if pa.__class__ is pb.__class__ and isinstance(pa, (Struct, Tup, Vec)) and (not isinstance(pa, Struct) or pa.path == pb.path):
+                return Enum(da.path, da.variant, [self.merge_val(c, pa, pb, None)])
+        return Ite(c, a, b)
 
     @staticmethod
     def parity_infeasible(c):
@@ -1469,7 +1554,7 @@ class Interp:
         if ra is not None and rb is not None:
             if ta.items or tb.items:
                 self.trace.add("alt", c, ta.items, tb.items, where)
-            raise ReturnSignal(Ite(c, ra.val, rb.val))
+            raise ReturnSignal(self.join_ret(c, ra.val, rb.val))
         if ra is not None or rb is not None:
             # one alternative leaves the function, the other continues: an early-exit guard
             ret, t_ret, c_ret = (ra, ta, c) if ra is not None else (rb, tb, c.negate() if isinstance(c, Cond) else c)
@@ -1674,6 +1759,8 @@ class Interp:
                 tgt = n["l"]
             elif n["k"] == "MethodCall" and (FX.callee_path(n) or "").endswith(("MulAssign::mul_assign", "AddAssign::add_assign", "SubAssign::sub_assign")):
                 tgt = n["recv"]
+            elif n["k"] == "AddrOf" and n.get("mut") and FX.strip(n["e"]).get("k") == "Path":
+                tgt = n["e"]  # `&mut x` of a plain local: written through the reference (`let w = &mut wc; *w -= ..`)
             if tgt is None:
                 continue
             t = tgt
@@ -2044,6 +2131,10 @@ class Interp:
             if wbase.has(j):
                 raise Unanalysable(f"indexed write at {idx} inside loop over [{off},{off}+{seg.n}) is not affine in the loop index", where)
             b = self.deref(base_ref.get())
+            if isinstance(b, Vec) and not le(sp.expand(wbase + seg.n), b.length(), old_bounds):
+                # `v[i] = x` does not grow a vector: positions [wbase, wbase + n) must exist (mutation campaign 3: deleting
+                # the `append` that creates the padding positions of r_vec survived, the writes silently extended it)
+                raise Unanalysable(f"indexed writes at [{wbase}, {sp.expand(wbase + seg.n)}) into a vector of length {b.length()}: cannot show that the positions exist (an index past the end panics)", where)
             v2 = fix(v)
             pre, rest = b.split_at(wbase, old_bounds)
             mid, post = rest.split_at(seg.n, old_bounds)
